@@ -145,7 +145,7 @@ func (g *Gen) lookalikes(holder string) []string {
 	return out
 }
 
-var badAddrs = []string{"", "garbage", "cosmos1qqqqqq", "noble1qv9pzxqlyckngw6zf9g9whn9d3eh4qvg3u3gv759",
+var badAddrs = []string{"", " ", "\t", "garbage", "cosmos1qqqqqq", "noble1qv9pzxqlyckngw6zf9g9whn9d3eh4qvg3u3gv759",
 	mustBech32("cosmos", []byte{}), mustBech32("cosmos", make([]byte, 256)), mustBech32("cosmos", make([]byte, 255)), mustBech32("cosmos", []byte{7})}
 
 func mustBech32(hrp string, data []byte) string {
@@ -180,7 +180,11 @@ func genRolesLifecycle(g *Gen, n int) {
 			}
 			switch g.r.Intn(9) {
 			case 0, 1:
-				g.tx("UpdateOwner", from, fmt.Sprintf("new=%x", arg), "")
+				if g.tx("UpdateOwner", from, fmt.Sprintf("new=%x", arg), "") == "ok" && g.r.Chance(1, 3) {
+					// with a nomination now pending: the owner nominates nobody (blank strings are not addresses)
+					g.tx("UpdateOwner", from, fmt.Sprintf("new=%x", g.pick([]string{"", " ", "\t", "\n", "  "})), "")
+					g.stats.Mut("blank-nomination-while-pending")
+				}
 			case 2, 3:
 				g.tx("AcceptOwner", from, "", "")
 			case 4:
